@@ -10,6 +10,8 @@
  R3 every operand slot is lifted: the implicit-RAM-access pass treats input0/1/2 alike and the
     indirect targets of BRANCHIND/CALLIND; sub-register substitution visits every
     Expression slot of Def and Jmp
+ R4 sub-register output folding: when `sub = value; base = CAST(sub)` is folded into one Def, the Def consumed from
+    the input iterator is carried over into the output (the kind of cast is the consumed Def's, not a constant)
 Does not decide: block-level equivalence under register aliasing.
 """
 import re
@@ -280,3 +282,79 @@ def run(run):
         run.floor("subregister substitution functions", len(cands), 5)
 
     run.guarded("R3", r3)
+
+    # ------------------------------------------------------------------ R4 consumed input defs are emitted
+    run.rule("R4", "sub-register output folding: a Def consumed from the input iterator is carried over into the output (not just its tid)")
+
+    def r4():
+        fn = F.fn("replace_output_subregister", mod="pcode::subregister_substitution")
+        t = S.Sym(F).term(fn["body"])
+        site = F.loc(fn["body"])
+
+        def is_next(x):
+            return is_call(x, "next") and x[2] and fmt(x[2][0]).endswith("self.input_iter")
+
+        def consumed_names(scope):
+            """locals bound (letstmt) to a consumed def, plus a marker for inlined consumption"""
+            out = set()
+            for y in S.subterms(scope):
+                if isinstance(y, tuple) and y and y[0] == "letstmt" and any(is_next(z) for z in S.subterms(y[2])):
+                    out.add(y[1])
+            return out
+
+        def is_consumed(x, names):
+            if isinstance(x, tuple) and x and x[0] == "var" and x[1] in names:
+                return True
+            y = x
+            while is_call(y, ("unwrap", "clone", "expect", "to_owned")) and y[2]:
+                y = y[2][0]
+            return is_next(y)
+
+        # every sequence (branch) that consumes a def
+        seqs = [x for x in S.subterms(t) if isinstance(x, tuple) and x and x[0] == "seq" and any(is_next(z) for st in x[1] for z in S.subterms(st) if not (isinstance(st, tuple) and st and st[0] == "ite"))]
+        n = 0
+        for sq in seqs:
+            names = consumed_names(sq)
+            pushes = [y for y in S.subterms(sq) if is_call(y, "push") and y[2] and fmt(y[2][0]).endswith("self.output_defs")]
+            if not pushes:
+                continue
+            n += 1
+            whole, tid_only = False, False
+            for p_ in pushes:
+                arg = p_[2][1]
+                occ_whole, occ_tid = False, False
+
+                def scan(x, parent_field=None):
+                    nonlocal occ_whole, occ_tid
+                    if not isinstance(x, tuple) or not x:
+                        return
+                    if is_consumed(x, names):
+                        if parent_field == "tid":
+                            occ_tid = True
+                        else:
+                            occ_whole = True
+                        return
+                    if x[0] == "field":
+                        scan(x[1], x[2])
+                        return
+                    for y in x[1:]:
+                        if isinstance(y, tuple):
+                            if y and isinstance(y[0], str):
+                                scan(y)
+                            else:
+                                for z in y:
+                                    if isinstance(z, tuple):
+                                        scan(z) if (z and isinstance(z[0], str)) else [scan(w) for w in z if isinstance(w, tuple)]
+                scan(arg)
+                whole |= occ_whole
+                tid_only |= occ_tid and not occ_whole
+            key = "replace_output_subregister|consumed-def-emitted|%d" % n
+            if whole:
+                run.holds("R4", key, "", site)
+            elif tid_only:
+                run.violated("R4", key, "a Def is taken from the input iterator (the cast of the sub-register to its base register) but only its tid reaches the output: its expression -- the kind of cast (sign extension, popcount, ...) -- is replaced by whatever the new Def hard-codes", site)
+            else:
+                run.undecided("R4", key, "a consumed input Def does not visibly reach output_defs", site)
+        run.floor("R4 folding branches that consume an input def", n, 2)
+
+    run.guarded("R4", r4)
